@@ -550,6 +550,10 @@ func (b *ccbBroker) stop() {
 	b.mu.Unlock()
 }
 
+// ccbDialWait: generous upper bound for "the dial ends / the library closes this connection"; every
+// wait returns as soon as the awaited event happens.
+const ccbDialWait = 6 * time.Second
+
 func (w *ccbDialWorld) waitDial(d time.Duration) bool {
 	select {
 	case <-w.dialDone:
@@ -659,9 +663,9 @@ func (b *ccbBroker) runStd(ctx context.Context, c *cedarserver.Conn) {
 			case st.G.Class == "silent":
 				blocked = true
 			case p.Matching && !blocked:
-				b.w.waitDial(3 * time.Second)
+				b.w.waitDial(ccbDialWait)
 			case !blocked:
-				p.closedWithin(3 * time.Second)
+				p.closedWithin(ccbDialWait)
 			}
 		case "reply":
 			if replied {
@@ -672,7 +676,7 @@ func (b *ccbBroker) runStd(ctx context.Context, c *cedarserver.Conn) {
 			op := b.sendReply(c, st.Reply, st.Msg)
 			b.logOps(at, op, "pick reply")
 			if st.Reply != "success" {
-				b.w.waitDial(3 * time.Second)
+				b.w.waitDial(ccbDialWait)
 			} else {
 				time.Sleep(2 * time.Millisecond)
 			}
@@ -689,7 +693,7 @@ func (b *ccbBroker) runStd(ctx context.Context, c *cedarserver.Conn) {
 				b.logPeer(at, p.Idx, "RACE", op, "arrive "+p.Tok)
 			}
 			replied = true
-			b.w.waitDial(3 * time.Second)
+			b.w.waitDial(ccbDialWait)
 		}
 	}
 }
@@ -770,7 +774,7 @@ func ccbErrClass(m string) string {
 	case has("accept reversed connection"):
 		return "acceptFailed"
 	}
-	return "other:" + strings.ReplaceAll(m, " ", "_")
+	return "other" // unknown text: a class only, never the text itself
 }
 
 // ccbDialErrClass renders the error of ccb.Dial like the model's DErr.
@@ -788,7 +792,7 @@ func ccbDialErrClass(err error) string {
 		}
 		return "err:allFailed[" + strings.Join(cls, ",") + "]"
 	}
-	return "err:other:" + strings.ReplaceAll(m, " ", "_")
+	return "err:other" // unknown text: a class only
 }
 
 var errCcbNoConn = errors.New("no connection")
